@@ -7,7 +7,7 @@ from ..callgraph import get_callgraph
 from ..cfg import cfg_of
 from ..locks import accesses
 from ..model import AnalysisError, dotted, norm, walk_own
-from .common import eval_compare_on, find_calls, guards_of, key_of, mentions
+from .common import eval_compare_on, find_calls, guards_of, key_of, local_derives_from_call, mentions
 
 EXPLANATION = (
     "Static guard / dominance analysis of admission and reaping: the listener's readable() is false in overflow and the "
@@ -181,12 +181,12 @@ def rule_r4(ctx):
         g = cfg_of(a.func)
         nodes = g.nodes_of(a.stmt)
         if fn == "handle_read":
-            if nodes and all(any(pol and dotted(t) == "data" for (t, pol) in guards_of(g, nd)) for nd in nodes):
+            if nodes and all(any(pol and isinstance(t, ast.Name) and local_derives_from_call(a.func, t.id, lambda c: dotted(c.func) == "self.recv") is True for (t, pol) in guards_of(g, nd)) for nd in nodes):
                 ctx.r.ok(rid, "stamped when data was received", a.loc)
             else:
                 ctx.r.violation(rid, key_of(a.func, None, "stamp-read-guard"), "the read stamp is not tied to 'data received'", a.loc)
         if fn == "_flush_some":
-            if nodes and all(any(pol and dotted(t) == "sent" for (t, pol) in guards_of(g, nd)) for nd in nodes):
+            if nodes and all(any(pol and isinstance(t, ast.Name) and local_derives_from_call(a.func, t.id, lambda c: dotted(c.func) == "self.send") is True for (t, pol) in guards_of(g, nd)) for nd in nodes):
                 ctx.r.ok(rid, "stamped when bytes were sent", a.loc)
             else:
                 ctx.r.violation(rid, key_of(a.func, None, "stamp-send-guard"), "the send stamp is not tied to 'bytes were sent'", a.loc)
